@@ -372,6 +372,32 @@ func runC11(r *core.Run) {
 			}
 		}
 	}
+	// (b2) thorough: every PAIR of substitutions over the whole stream (6-value menu) for the raw
+	// LZMA2 and .lzma seeds (no check sum in front of the decoder: both bytes reach it)
+	if th {
+		for _, nm := range []string{"lib-lzma2-flushes", "ref-lzma2-allchunks", "lib-lzma-eos", "lib-lzma-size+eos", "walk-lzma"} {
+			s, ok := bases[nm]
+			if !ok {
+				panic("C11: unknown seed " + nm)
+			}
+			lim := len(s.Data)
+			if lim > 260 {
+				lim = 260
+			}
+			for i := 0; i < lim; i++ {
+				for j := i + 1; j < lim; j++ {
+					for _, a := range menu {
+						for _, b := range menu {
+							if a == s.Data[i] || b == s.Data[j] {
+								continue
+							}
+							cases = append(cases, C11Case{Fmt: s.Fmt, Base: nm, Muts: []ByteMut{{Kind: "sub", Pos: i, Val: a}, {Kind: "sub", Pos: j, Val: b}}})
+						}
+					}
+				}
+			}
+		}
+	}
 	// (c) structural edits
 	for nm, s := range bases {
 		if s.Fmt != "xz" || s.ValidCuts != nil {
